@@ -35,6 +35,17 @@ def shapes():
         # chk is no longer built but still named as a validation
         Variant("v1", [Stmt("out", ex=["src"], val=["chk"]), Stmt("top", ex=["out"])], defaults=["top"]),
     ]))
+    # two dyndep-bound statements; building only the second leaves the first one's dyndep file missing
+    dd1 = "ninja_dyndep_version = 1\nbuild out1 | out1.imp: dyndep\n"
+    dd2 = "ninja_dyndep_version = 1\nbuild out2 | out2.imp: dyndep\n"
+    S.append(("two_dyndep", [
+        Variant("v0", [Stmt("dd1", ex=["dd1.in"], copy=True), Stmt("dd2", ex=["dd2.in"], copy=True),
+                       Stmt("out1", ex=["in"], oo=["dd1"], dyndep="dd1", extra_outs=["out1.imp"]),
+                       Stmt("out2", ex=["in"], oo=["dd2"], dyndep="dd2", extra_outs=["out2.imp"])]),
+    ]))
+    S.append(("no_input_edge", [
+        Variant("v0", [Stmt("ver.h"), Stmt("obj", ex=["src"], im=["ver.h"]), Stmt("exe", ex=["obj"])]),
+    ]))
     S.append(("restat_pool", [
         Variant("v0", [Stmt("r", ex=["s"], restat=True, pool="one"), Stmt("q", ex=["r"], pool="one"), Stmt("p", ex=["t"], oo=["r"])],
                 pools={"one": 1}),
@@ -48,7 +59,10 @@ def _common_ops(variants):
     produced = set(o for v in variants for st in v.stmts for o in st.all_outs())
     for s in sources_of(variants):
         if s not in produced:
-            ops.append({"op": "edit", "path": s, "label": "edit " + s})
+            if s.startswith("dd") and s.endswith(".in"):
+                ops.append({"op": "touch", "path": s, "label": "touch " + s})   # content must stay a valid dyndep file
+            else:
+                ops.append({"op": "edit", "path": s, "label": "edit " + s})
     for st in v0.stmts:
         if not st.phony:
             for o in st.all_outs():
@@ -62,6 +76,9 @@ def _common_ops(variants):
         ops.append({"op": "variant", "to": i, "label": "manifest:=" + variants[i].name})
     build = len(ops)
     ops.append(ninja_op(j=2))
+    cmd = [st for st in v0.stmts if not st.phony]
+    if len(cmd) >= 2:
+        ops.append(ninja_op(targets=[cmd[-1].id], j=1))   # partial build: only the last statement's closure
     return ops, build
 
 
@@ -86,14 +103,32 @@ def clean_scenarios(tier="quick"):
         for t in tools:
             t["no_expand"] = True
         files = {"s2": "s2-v0\n"} if name == "generator_phony_alias" else {}
+        if name == "two_dyndep":
+            files = {"dd1.in": "ninja_dyndep_version = 1\nbuild out1 | out1.imp: dyndep\n",
+                     "dd2.in": "ninja_dyndep_version = 1\nbuild out2 | out2.imp: dyndep\n"}
         T.append(scenario("c18/" + name, "c18", variants, files=files, ops=ops + tools, init=[build],
                           depth=2 if tier == "quick" else 3, tags=["clean"]))
+    # a build log past the recompaction threshold with a stale output that still exists on disk
+    v = Variant("v0", [Stmt("a", ex=["s"]), Stmt("b", ex=["a"])])
+    log = "# ninja log v7\n"
+    for rep in range(4):
+        for i in range(40):
+            log += "0\t1\t1700000000000000000\tgone%d\tabc%d\n" % (i, i)
+        log += "0\t1\t1700000000000000000\tstale\tfeed\n"
+    tools = [tool_op("cleandead"), tool_op("cleandead", dry=True, verbose=True), tool_op("clean-all")]
+    for t in tools:
+        t["no_expand"] = True
+    ops = [ninja_op(j=1)] + tools
+    T.append(scenario("c18/recompacted_log_stale_output", "c18", [v], files={".ninja_log": log, "stale": "old output\n"}, ops=ops,
+                      init=[], depth=2, tags=["clean", "recompaction"]))
     return T
 
 
 def readonly_scenarios(tier="quick"):
     T = []
     for name, variants in shapes():
+        if name == "two_dyndep":
+            continue   # C19 is stated for graphs without pending dyndep files
         variants = variants[:1]
         ops, build = _common_ops(variants)
         v0 = variants[0]
@@ -125,6 +160,9 @@ def readonly_scenarios(tier="quick"):
         for t in tools:
             t["no_expand"] = True
         files = {"s2": "s2-v0\n"} if name == "generator_phony_alias" else {}
+        if name == "two_dyndep":
+            files = {"dd1.in": "ninja_dyndep_version = 1\nbuild out1 | out1.imp: dyndep\n",
+                     "dd2.in": "ninja_dyndep_version = 1\nbuild out2 | out2.imp: dyndep\n"}
         T.append(scenario("c19/" + name, "c19", variants, files=files, ops=ops + tools, init=[],
                           depth=3 if tier == "quick" else 4, tags=["readonly"]))
     # compdb with every byte a manifest can carry in a command / description / path
